@@ -10,23 +10,9 @@ verus! {
 //@ include prelude/clvmr.rs
 //@ include prelude/std.rs
 //@ include units/inc/bytes.rs
-pub enum Tree {
-    Atom(Seq<u8>),
-    Pair(Box<Tree>, Box<Tree>),
-}
-pub open spec fn tnil() -> Tree { Tree::Atom(Seq::<u8>::empty()) }
+//@ include spec/sertree.rs
 //@ include prelude/allocator_tree.rs
 use allocator::SExp;
-
-// SPEC: consensus serialisation of a tree (clvmr serde::node_to_bytes): 0xff left right for a pair, enc_atom for an atom
-pub open spec fn ser(t: Tree) -> Seq<u8>
-    decreases t
-{
-    match t {
-        Tree::Atom(a) => enc_atom(a),
-        Tree::Pair(l, r) => seq![0xffu8] + ser(*l) + ser(*r),
-    }
-}
 
 //@ extract const MAX_SINGLE_BYTE from src/classic/clvm/serialize.rs
 //@ end
@@ -44,29 +30,7 @@ pub open spec fn ser(t: Tree) -> Seq<u8>
 //@ replace R28 @<struct SExpToBytesIterator<'a> {>@ => @<pub struct SExpToBytesIterator<'a> {>@
 //@ end
 
-// what the iterator still has to emit: the work stack is consumed from its end
-pub open spec fn op_bytes(a: Allocator, op: SExpToByteOp) -> Seq<u8> {
-    match op {
-        SExpToByteOp::Blob(b) => b@,
-        SExpToByteOp::Object(n) => ser(node_tree(a, n)->Some_0),
-    }
-}
-pub open spec fn op_wf(a: Allocator, op: SExpToByteOp) -> bool {
-    match op { SExpToByteOp::Blob(_) => true, SExpToByteOp::Object(n) => node_tree(a, n) is Some }
-}
-pub open spec fn pending(a: Allocator, st: Seq<SExpToByteOp>) -> Seq<u8>
-    decreases st.len()
-{
-    if st.len() == 0 { Seq::<u8>::empty() } else { op_bytes(a, st.last()) + pending(a, st.drop_last()) }
-}
-pub open spec fn stack_wf(a: Allocator, st: Seq<SExpToByteOp>) -> bool { forall|i: int| 0 <= i < st.len() ==> op_wf(a, #[trigger] st[i]) }
-pub open spec fn atoms_fit(t: Tree) -> bool
-    decreases t
-{
-    match t { Tree::Atom(x) => x.len() < 0x400000000, Tree::Pair(l, r) => atoms_fit(*l) && atoms_fit(*r) }
-}
-pub closed spec fn it_alloc(it: SExpToBytesIterator) -> Allocator { *it.allocator }
-pub closed spec fn it_stack(it: SExpToBytesIterator) -> Seq<SExpToByteOp> { it.state@ }
+//@ include spec/serout.rs
 
 pub broadcast proof fn lemma_single_prefix(x: Seq<u8>, rest: Seq<u8>)
     requires x.len() == 1
@@ -85,17 +49,11 @@ impl<'a> SExpToBytesIterator<'a> {
 //@ with
             SExpToByteOp::Blob(b) => Some(b),
         } }
-//@ sig r
-    requires stack_wf(it_alloc(*old(self)), it_stack(*old(self)))
-    ensures
-        it_alloc(*final(self)) == it_alloc(*old(self)),
-        stack_wf(it_alloc(*final(self)), it_stack(*final(self))),
-        r matches Some(chunk) ==> chunk@ + pending(it_alloc(*final(self)), it_stack(*final(self))) == pending(it_alloc(*old(self)), it_stack(*old(self))),
-        r is None ==> it_stack(*old(self)).len() == 0 || (it_stack(*old(self)).last() matches SExpToByteOp::Object(n) && node_tree(it_alloc(*old(self)), n)->Some_0 matches Tree::Atom(x) && x.len() >= 0x400000000),
+//@ sigfile r contracts/ser_next.sig
 //@ before stmt @<match self.state.pop()>@
         let ghost s0 = self.state@;
         let ghost al = *self.allocator;
-        proof { if s0.len() > 0 { assert(pending(al, s0) == op_bytes(al, s0.last()) + pending(al, s0.drop_last())); } }
+        proof { if s0.len() > 0 { assert(pending(al, s0) == op_bytes(al, s0.last()) + pending(al, s0.drop_last())); assert(stack_weight(al, s0) == op_weight(al, s0.last()) + stack_weight(al, s0.drop_last())); } }
 //@ before stmt #0 @<Some(b)>@
                             proof {
                                 let dl = s0.drop_last();
@@ -103,6 +61,7 @@ impl<'a> SExpToBytesIterator<'a> {
                                     assert(self.state@ =~= dl.push(SExpToByteOp::Blob(buf)));
                                     assert(self.state@.drop_last() =~= dl);
                                     assert(pending(al, self.state@) == buf@ + pending(al, dl));
+                                    assert(stack_weight(al, self.state@) == 1 + stack_weight(al, dl));
                                     assert(b@ + (buf@ + pending(al, dl)) =~= (b@ + buf@) + pending(al, dl));
                                 } else {
                                     assert(self.state@ =~= dl);
@@ -119,6 +78,8 @@ impl<'a> SExpToBytesIterator<'a> {
                         assert(s1.drop_last() =~= dl);
                         assert(pending(al, s1) == ser(node_tree(al, r)->Some_0) + pending(al, dl));
                         assert(pending(al, self.state@) == ser(node_tree(al, f)->Some_0) + pending(al, s1));
+                        assert(stack_weight(al, s1) == tree_weight(node_tree(al, r)->Some_0) + stack_weight(al, dl));
+                        assert(stack_weight(al, self.state@) == tree_weight(node_tree(al, f)->Some_0) + stack_weight(al, s1));
                         let sf = ser(node_tree(al, f)->Some_0); let sr = ser(node_tree(al, r)->Some_0); let pd = pending(al, dl);
                         assert(seq![0xffu8] + (sf + (sr + pd)) =~= (seq![0xffu8] + sf + sr) + pd);
                     }
